@@ -244,8 +244,10 @@ SAMPLE_RECORD = {
     "name": "some.logger", "levelno": 20, "levelname": "INFO",
     "pathname": "/some/path/mod.py", "filename": "mod.py", "module": "mod",
     "lineno": 12, "created": 1700000000.25, "asctime": "2023-11-14T22:13:20",
-    "msecs": 250.0, "relativeCreated": 1234.5, "thread": 7,
-    "threadName": "MainThread", "process": 4321,
+    # thread identifiers are pointer-sized, process identifiers reach 2**22:
+    # neither is a character code, so '%(thread)c' does not render
+    "msecs": 250.0, "relativeCreated": 1234.5, "thread": 0x7f3a5c1d2740,
+    "threadName": "MainThread", "process": 4190000,
     "processName": "MainProcess", "funcName": "fn", "message": "text",
     "msg": "text", "args": (), "exc_info": None, "exc_text": None,
     "stack_info": None, "taskName": None,
